@@ -394,3 +394,10 @@ for tier in ('quick', 'thorough'):
     PROPS['C04']['mir'][tier].append(mrun(['clone_from'], nmax=3 if tier == 'quick' else 6))
     if tier in PROPS['C05']['mir']:
         PROPS['C05']['mir'][tier].append(mrun(['iter.fold', 'iter.rfold', 'fold', 'map', 'zip'], nmax=3))
+
+# sixth round: an overridden clone_from of the by-value iterator (receiver's old items released, then refilled in place)
+for pid in ('C04', 'C05'):
+    for tier in ('quick', 'thorough'):
+        if tier in PROPS[pid]['mir']:
+            PROPS[pid]['mir'][tier].append(mrun(['iter.clone_from'], nmax=3 if tier == 'quick' else 6))
+PROPS['C06']['mir']['quick'].append(mrun(['iter.clone_from'], nmax=3))
